@@ -30,6 +30,32 @@ def run_epanet(wn, units, scratch, tag):
     return res, exc, [str(w.message) for w in wl]
 
 
+def relayout_demands(src, dst):
+    """copy the INP file with the data lines of [DEMANDS] stably sorted by demand category (last column); True if that changed the order"""
+    with open(src, 'rb') as fh:
+        lines = fh.read().decode('latin-1').split('\n')
+    try:
+        i0 = next(i for i, ln in enumerate(lines) if ln.strip().upper().startswith('[DEMANDS]'))
+    except StopIteration:
+        return False
+    i1 = next((i for i in range(i0 + 1, len(lines)) if lines[i].strip().startswith('[')), len(lines))
+    head = [ln for ln in lines[i0 + 1:i1] if not ln.strip() or ln.strip().startswith(';')]
+    data = [ln for ln in lines[i0 + 1:i1] if ln.strip() and not ln.strip().startswith(';')]
+    if len(data) < 3:
+        return False
+    def cat(ln):
+        return ln.split(';', 1)[1].strip() if ';' in ln else ''
+    new = sorted(data, key=cat)
+    if new == data:
+        new = data[::2] + data[1::2]      # interleave: first the odd lines, then the even ones
+        if new == data:
+            return False
+    out = lines[:i0 + 1] + [ln for ln in head if ln.strip()] + new + [''] + lines[i1:]
+    with open(dst, 'wb') as fh:
+        fh.write('\n'.join(out).encode('latin-1'))
+    return True
+
+
 def tab(res, grp, key):
     return getattr(res, grp)[key]
 
@@ -254,7 +280,13 @@ class C03(Prop):
             # (c) reader: re-read the first file, run EPANET on the re-read model (written again in another unit system)
             u0 = scn['units'][0]
             try:
-                wn_r = wntr.network.WaterNetworkModel(os.path.join(scratch, 'e_' + u0 + '.inp'))
+                # the same file in a layout the WNTR writer never produces but EPANET accepts: the [DEMANDS] lines sorted by category, so
+                # that the entries of one junction are no longer consecutive (EPANET adds up all the lines of a junction in any order)
+                src_ = os.path.join(scratch, 'e_' + u0 + '.inp')
+                if relayout_demands(src_, os.path.join(scratch, 'e_' + u0 + '_relaid.inp')):
+                    src_ = os.path.join(scratch, 'e_' + u0 + '_relaid.inp')
+                    bump(c, 'c03.reader.demands_section_relaid')
+                wn_r = wntr.network.WaterNetworkModel(src_)
             except Exception as e:  # noqa
                 viol.append(V('c03.reader_raises', type(e).__name__, 'reading the INP file WNTR wrote in %s: %r' % (u0, e)))
                 wn_r = None
